@@ -230,6 +230,8 @@ func serverSequence(r *vk.Run, ent srvkit.ServerEntry, rng *vk.Rand, steps int, 
 			if doProbe {
 				before1, before2 = probe(), probe()
 			}
+			// first through the pointers and byte slices the request already has (optional scalars, bytes), then field by field
+			r.Count("server-scribbles-through-pointers", vk.PokeThroughPointers(captured))
 			for k := 0; k < 4; k++ {
 				vk.Mutate(rng, captured, vk.GenOpts{Density: 35, MaxDepth: 2, MaxList: 2})
 			}
